@@ -262,6 +262,30 @@ Section C03.
     inversion E; subst. eapply rejected_not_accepted; eassumption.
   Qed.
 
+  (* property setters: the assigned value is checked although it arrives positionally *)
+  Theorem setter_guard : forall f c bd p a r x,
+    t_setter (f_text f) = true -> is_instance_method f = true ->
+    params_without_self f = [p] -> is_star p = false -> p_default p = None -> p_ann p = Some a ->
+    c_recv c = [r] -> c_args c = [x] -> kw_get (p_name p) (c_kwargs c) = None ->
+    rejected a x ->
+    snd (run pc check consumes f c bd) = [] /\ exists e, fst (run pc check consumes f c bd) = Raise e.
+  Proof.
+    intros f c bd p a r x Hts Him Hpw Hstar Hd Ha Hr Hx Hk Hrej. rewrite (run_is_ref pc check consumes good). unfold run_ref.
+    destruct (instance_of f c) as [inst|e]; [|simpl; split; eauto].
+    destruct (assert_uses_kwargs pc f c) as [u|e]; [|simpl; split; eauto].
+    assert (E : exists e, args_phase pc check consumes f c inst astate0 = Raise e).
+    { rewrite (args_phase_ref pc check consumes good).
+      assert (E1 : exists e, run_pass pc check consumes f c inst PNamed astate0 = Raise e).
+      { unfold run_pass. rewrite Hpw. cbn [filter]. rewrite Hstar. cbn [negb pass_named]. rewrite Ha, Hk, Hd, Him.
+        assert (Hs : should_have_kwargs pc f = false).
+        { rewrite (should_have_kwargs_ref pc good). unfold ref_shk, name_atoms. cbn [at_setter at_wants_args]. now rewrite Hts. }
+        rewrite Hs. unfold wargs, wsrc, arg_srcs. rewrite Hr, Hx. simpl.
+        unfold chk. destruct (clazz_probe f c inst); [|simpl; eauto].
+        destruct (Hrej []) as [e He]. simpl a_tv. destruct (check a x []) as [[uu|e'] tv']; simpl in He; [discriminate|]. simpl. eauto. }
+      destruct E1 as [e E1]. rewrite E1. simpl. eauto. }
+    destruct E as [e E]. rewrite E. simpl. split; eauto.
+  Qed.
+
   (* which exception: nothing but PedanticTypeCheckException can come out of the argument phase when the
      class probe of `type_vars` does not fail and the checker itself raises nothing else *)
   Section Exact.
